@@ -95,6 +95,12 @@ def observe(cell, with_repr=True):
             o['repr'] = {'ok': list(cell.calculate_representation_hash())}
         except Exception as e:
             o['repr'] = {'err': type(e).__name__}
+        try:
+            o['reprb'] = list(cell.get_representation())
+            o['desc'] = list(cell.get_descriptors(cell.level_mask))
+            o['databytes'] = list(cell.get_data_bytes())
+        except Exception as e:
+            o['reprb'], o['desc'], o['databytes'] = [], [], []
     return o
 
 
